@@ -97,6 +97,9 @@ func checkC11(w *World, r *Report) {
 		r.Check(ok, "R11.8", "checkFeatures records every feature", f.Pos(), "filteredFeatures.set(…) on every iteration of the feature loop", "a feature can be skipped ("+why+"): it is then missing from the verified set — treated as disabled — depending on which module the map iteration visits first")
 	})
 
+	r.Rule("R11.9", "the outcome does not depend on what was compiled or parsed before: package-level state of parse/, compile/, schema/ and data/ is never written after initialisation (no memo, pool or table filled at run time), apart from the reviewed debug switch and built-in type environment", 2)
+	r.guard("R11.9", func() { c06GlobalsIn(w, r, "R11.9", []string{"parse", "compile", "schema", "data/encoding", "data/datanode"}) })
+
 	r.Rule("R11.6", "no compile error is forgotten: in package compile every error result bound to a variable is examined (the two os.Open calls of the file-system feature scan are reviewed)", 1)
 	r.guard("R11.6", func() {
 		errRule(w, r, "R11.6", []string{"compile"}, map[string]string{
